@@ -10,7 +10,7 @@ git -C /repo apply "$patch" || { echo "patch does not apply"; exit 2; }
 for p in "$@"; do
   res=$(/verif/check $p ${RUNS:+--runs $RUNS} ${SECS:+--secs $SECS} --no-evidence --out $out 2>&1)
   code=$?
-  line=$(echo "$res" | grep -E "^minimised|^violation in run" | tail -1 | cut -c1-260)
-  runs=$(echo "$res" | grep -oE "^runs=[0-9]+" | head -1)
+  line=$(echo "$res" | grep -E "^minimised|^violation in" | tail -1 | cut -c1-300)
+  runs=$(echo "$res" | grep -oE "^(runs|executions|programs)=[0-9]+" | tr "\n" " ")
   echo "  $p: exit=$code $runs $line"
 done
